@@ -194,8 +194,31 @@ fn quick_budget(ctx: &mut Ctx) {
     }
 }
 
+/// natural flavour with slow commands: a coordinator that stops waiting while tasks are still
+/// running shows as a missing final pass or a false failure (no gate or blocking here: real timing)
+fn slow_natural(ctx: &mut Ctx, prop: &'static str, classes: &'static [&'static str]) {
+    for j in 0..ctx.tier.pick(2u64, 12) {
+        if !ctx.time_left() {
+            break;
+        }
+        let i = j + ctx.shard as u64 * 5; // different shards take different variants
+        let mut case = GraphCase::new(3, [0b100_010u64, 0b000_000_110, 0b100_110][(i % 3) as usize]); // chain, fan-out, triangle
+        case.slow_ms = 900;
+        case.markers = true;
+        case.threads = [1, 3][(i % 2) as usize];
+        case.input_style = [0, 4][((i / 2) % 2) as usize];
+        let spec = Spec::Natural { delay: None };
+        let run = exec(ctx, &case, spec.clone(), true);
+        account(ctx, &run);
+        ctx.count("natural_flavour_slow_command_executions", 1);
+        ctx.distinct.insert(case.hash() ^ run.trace_hash.rotate_left(13));
+        report(ctx, prop, classes, &case, &run, &spec);
+    }
+}
+
 fn run_c02(ctx: &mut Ctx) {
     quick_budget(ctx);
+    slow_natural(ctx, "C02", C02_CLASSES);
     let shard = ctx.shard as u64;
     let mut r = StdRng::seed_from_u64(ctx.shard_seed());
     let cap = 20_000;
@@ -358,24 +381,7 @@ fn digraph_enumeration(ctx: &mut Ctx, prop: &'static str, classes: &'static [&'s
         let cyclic = !case.graph().is_acyclic();
         sampled_schedules(ctx, prop, classes, &case, &mut r, 3, if cyclic_only_nontrivial { cyclic } else { true });
     }
-    // natural flavour with slow commands: a coordinator that stops waiting while tasks are still
-    // running shows as a missing final pass (no gate or blocking here: real timing)
-    for i in 0..ctx.tier.pick(2u64, 12) {
-        if !ctx.time_left() {
-            break;
-        }
-        let mut case = GraphCase::new(3, [0b100_010u64, 0b000_000_110, 0b100_110][(i % 3) as usize]); // chain, fan-out, triangle
-        case.slow_ms = 900;
-        case.markers = true;
-        case.threads = [1, 3][(i % 2) as usize];
-        case.input_style = [0, 4][((i / 2) % 2) as usize];
-        let spec = Spec::Natural { delay: None };
-        let run = exec(ctx, &case, spec.clone(), true);
-        account(ctx, &run);
-        ctx.count("natural_flavour_slow_command_executions", 1);
-        ctx.distinct.insert(case.hash() ^ run.trace_hash.rotate_left(13));
-        report(ctx, prop, classes, &case, &run, &spec);
-    }
+    slow_natural(ctx, prop, classes);
     let n = ctx.tier.pick(40, 800);
     free_stress(ctx, prop, classes, &mut r, n, false);
     'all: for n in 1..=3usize {
